@@ -22,8 +22,9 @@ Rec == ndJsonDeserialize(IOEnv.TRACE)
 Stripes == 16
 
 VARIABLES t,    \* index of the run being replayed
-          l     \* index of the next op of that run
-tvars == <<vars, t, l>>
+          l,    \* index of the next op of that run
+          wpend \* io::Write::write_all in progress: the bytes the writer has not accepted yet
+tvars == <<vars, t, l, wpend>>
 
 Max2(a, b) == IF a >= b THEN a ELSE b
 IsRun(tt) == tt <= Len(Rec) /\ Rec[tt].ev = "stream"
@@ -52,7 +53,7 @@ TInit ==
     /\ buf = <<>> /\ rpos = 0 /\ readany = FALSE
     /\ sid = Root /\ apos = 0 /\ bpos = 0 /\ rep = 0
     /\ outpos = 0 /\ nm = 0 /\ last = NoEmit /\ eofseen = FALSE /\ faults = 0
-    /\ orc = OrcOf(CfgOf(t)) /\ ftype = "none"
+    /\ orc = OrcOf(CfgOf(t)) /\ ftype = "none" /\ wpend = <<>>
 
 LoadNext ==
     /\ (t + Stripes > Len(Rec)) => PrintT("DONE " \o ToJson([stripe |-> t]))
@@ -62,15 +63,34 @@ LoadNext ==
     /\ buf' = <<>> /\ rpos' = 0 /\ readany' = FALSE
     /\ sid' = Root /\ apos' = 0 /\ bpos' = 0 /\ rep' = 0
     /\ outpos' = 0 /\ nm' = 0 /\ last' = NoEmit /\ eofseen' = FALSE /\ faults' = 0
-    /\ orc' = OrcOf(CfgOf(t + Stripes)) /\ ftype' = "none"
+    /\ orc' = OrcOf(CfgOf(t + Stripes)) /\ ftype' = "none" /\ wpend' = <<>>
 
 HasOp(k) == l <= Len(Ops) /\ Ops[l][1] = k
 ToM3(o) == <<o[2] + 1, o[3], o[4]>>
 
 EmitAction == MatchChunk \/ PreRoll \/ Eof
 
+(* The writer is driven through io::Write::write_all: one emission of the    *)
+(* specification is one write_all, which calls Write::write until every byte *)
+(* has been accepted.  Ops of the writer:                                    *)
+(*   ["w", bytes]      offered `bytes`, accepted all of them                 *)
+(*   ["ws", bytes, n]  ... accepted only the first n (0 < n < Len(bytes))     *)
+(*   ["wintr", bytes]  ... failed with ErrorKind::Interrupted (write_all      *)
+(*                     retries: nothing was accepted, nothing is lost)       *)
+(*   ["wfail", bytes]  ... failed for good                                   *)
+(* The FIRST write call of a write_all is explained by the emitting action   *)
+(* (its chunk = the bytes offered); what the writer did not accept is kept   *)
+(* in wpend, and every further call must offer exactly wpend.                *)
+IsW(o) == o[1] \in {"w", "ws", "wintr", "wfail"}
+RestOf(o) ==
+    CASE o[1] = "ws" -> SubSeq(o[2], o[3] + 1, Len(o[2]))
+      [] o[1] = "wintr" -> o[2]
+      [] OTHER -> <<>>
+Cont(o) == o[1] \in {"w", "ws", "wintr"}    \* the write_all carries on / completed
+
 (* steps nobody outside can see *)
 Silent ==
+    /\ wpend = <<>>
     /\ \/ Scan
        \/ RollFill
        \/ Eof /\ pc' = "done"
@@ -80,32 +100,39 @@ Silent ==
        \* table replacement: an empty replacement is written with zero write calls
        \/ Mode = "table" /\ MatchChunk /\ last'.kind = "m" /\ nm' = nm + 1 /\ pc' # "failed"
             /\ E.R[last'.mat[1]] = <<>>
-    /\ UNCHANGED <<t, l>>
+    /\ UNCHANGED <<t, l, wpend>>
 
 OpStep ==
     /\ l <= Len(Ops)
     /\ LET o == Ops[l] IN
-       \/ /\ o[1] = "r" /\ Read /\ pc' # "failed"
-          /\ Free = o[2]                      \* the slice offered to Read::read
-          /\ rpos' = rpos + o[3]              \* what the reader returned
-          /\ o[3] = 0 => eofseen'
-       \/ /\ o[1] = "rfail" /\ Read /\ pc' = "failed" /\ Free = o[2]
-       \/ /\ o[1] = "w" /\ Mode = "replace" /\ EmitAction /\ pc' # "failed"
-          /\ last'.kind = "n" /\ outpos' # outpos /\ last'.bytes = o[2]
-       \/ /\ o[1] = "wfail" /\ Mode = "replace" /\ EmitAction /\ pc' = "failed"
-          /\ last'.kind = "n" /\ outpos' # outpos /\ last'.bytes = o[2]
-       \* table variant: chunks and replacements are both plain writes
-       \/ /\ o[1] \in {"w", "wfail"} /\ Mode = "table"
-          /\ \/ EmitAction /\ last'.kind = "n" /\ outpos' # outpos /\ last'.bytes = o[2]
-             \/ MatchChunk /\ last'.kind = "m" /\ nm' = nm + 1 /\ o[2] = E.R[last'.mat[1]] /\ o[2] # <<>>
+       \/ /\ wpend = <<>> /\ wpend' = <<>>
+          /\ \/ /\ o[1] = "r" /\ Read /\ pc' # "failed"
+                /\ Free = o[2]                      \* the slice offered to Read::read
+                /\ rpos' = rpos + o[3]              \* what the reader returned
+                /\ o[3] = 0 => eofseen'
+             \/ /\ o[1] = "rfail" /\ Read /\ pc' = "failed" /\ Free = o[2]
+             \/ /\ o[1] = "m" /\ Mode = "replace" /\ MatchChunk /\ pc' # "failed"
+                /\ last'.kind = "m" /\ nm' = nm + 1 /\ last'.mat = ToM3(o) /\ last'.bytes = o[5]
+             \/ /\ o[1] = "mfail" /\ Mode = "replace" /\ MatchChunk /\ pc' = "failed"
+                /\ last'.kind = "m" /\ nm' = nm + 1 /\ last'.mat = ToM3(o) /\ last'.bytes = o[5]
+             \/ /\ o[1] = "y" /\ Mode = "find" /\ MatchChunk /\ pc' # "failed"
+                /\ last'.kind = "m" /\ nm' = nm + 1 /\ last'.mat = ToM3(o)
+             \/ /\ o[1] = "yerr" /\ Mode = "find" /\ pc = "failed" /\ UNCHANGED vars
+       \* the first write call of a write_all: a non-match chunk ...
+       \/ /\ wpend = <<>> /\ IsW(o) /\ Mode \in {"replace", "table"}
+          /\ EmitAction /\ last'.kind = "n" /\ outpos' # outpos /\ last'.bytes = o[2]
           /\ (pc' = "failed") <=> (o[1] = "wfail")
-       \/ /\ o[1] = "m" /\ Mode = "replace" /\ MatchChunk /\ pc' # "failed"
-          /\ last'.kind = "m" /\ nm' = nm + 1 /\ last'.mat = ToM3(o) /\ last'.bytes = o[5]
-       \/ /\ o[1] = "mfail" /\ Mode = "replace" /\ MatchChunk /\ pc' = "failed"
-          /\ last'.kind = "m" /\ nm' = nm + 1 /\ last'.mat = ToM3(o) /\ last'.bytes = o[5]
-       \/ /\ o[1] = "y" /\ Mode = "find" /\ MatchChunk /\ pc' # "failed"
-          /\ last'.kind = "m" /\ nm' = nm + 1 /\ last'.mat = ToM3(o)
-       \/ /\ o[1] = "yerr" /\ Mode = "find" /\ pc = "failed" /\ UNCHANGED vars
+          /\ wpend' = RestOf(o)
+       \* ... or (table variant) a replacement
+       \/ /\ wpend = <<>> /\ IsW(o) /\ Mode = "table"
+          /\ MatchChunk /\ last'.kind = "m" /\ nm' = nm + 1 /\ o[2] = E.R[last'.mat[1]] /\ o[2] # <<>>
+          /\ (pc' = "failed") <=> (o[1] = "wfail")
+          /\ wpend' = RestOf(o)
+       \* a further write call of the same write_all
+       \/ /\ wpend # <<>> /\ IsW(o) /\ o[2] = wpend /\ wpend' = RestOf(o)
+          /\ IF Cont(o) THEN UNCHANGED vars
+             ELSE /\ pc' = "failed" /\ ftype' = "write" /\ faults' = faults + 1
+                  /\ UNCHANGED <<orc, cfg, buf, rpos, readany, sid, apos, bpos, rep, outpos, nm, last, eofseen>>
     /\ l' = l + 1 /\ UNCHANGED t
 
 Step == Silent \/ OpStep
@@ -121,6 +148,7 @@ ExpectOK ==
 
 EndOK ==
     /\ ExpectOK
+    /\ wpend = <<>>            \* a write_all is never abandoned half-way without an error
     /\ CASE E.end = "ok" -> pc = "done"
          [] E.end = "err" -> pc = "failed"
          [] OTHER -> FALSE          \* "panic" / "rejected" are never allowed
@@ -137,7 +165,7 @@ Stuck ==
     /\ pc # "skip" /\ l <= Len(Ops) /\ ~ENABLED Step
     /\ Reject("no action of ACStream explains op " \o ToString(Ops[l]) \o " at pc = " \o pc
               \o " (buffer " \o ToString(buf) \o ", pos " \o ToString(bpos)
-              \o ", reported " \o ToString(rep) \o ")")
+              \o ", reported " \o ToString(rep) \o ", write_all pending " \o ToString(wpend) \o ")")
     /\ LoadNext
 
 (* lines that are not runs: context lines; table replacements are checked   *)
